@@ -96,6 +96,9 @@ MUT = {
     "M35-open-does-not-touch": ("C12", S + "server.py",
         "        self._touch(when)\n        db.commit() # XXX: reconcile the need for this with the comment above",
         "        db.commit() # XXX: reconcile the need for this with the comment above"),
+    "M36-claim-flag-set-after-success": ("C17", S + "server_websocket.py",
+        "        self._did_claim = True\n        nameplate_id = msg[\"nameplate\"]\n        assert isinstance(nameplate_id, type(\"\")), type(nameplate_id)\n        self._nameplate_id = nameplate_id\n        try:\n            mailbox_id = self._app.claim_nameplate(nameplate_id, self._side,\n                                                   server_rx)\n        except CrowdedError:\n            raise Error(\"crowded\")\n        except ReclaimedError:\n            raise Error(\"reclaimed\")\n",
+        "        nameplate_id = msg[\"nameplate\"]\n        assert isinstance(nameplate_id, type(\"\")), type(nameplate_id)\n        try:\n            mailbox_id = self._app.claim_nameplate(nameplate_id, self._side,\n                                                   server_rx)\n        except CrowdedError:\n            raise Error(\"crowded\")\n        except ReclaimedError:\n            raise Error(\"reclaimed\")\n        self._did_claim = True\n        self._nameplate_id = nameplate_id\n"),
 }
 
 SPEC = {
@@ -117,9 +120,6 @@ SPEC = {
     "spec-S8-refused-side-row-not-kept": (S + "server.py",
         "        if side not in [r[\"side\"] for r in rows[:2]]:\n            raise CrowdedError(\"too many sides have opened this mailbox\")",
         "        if side not in [r[\"side\"] for r in rows[:2]]:\n            db.execute(\"DELETE FROM `mailbox_sides` WHERE `mailbox_id`=? AND `side`=?\", (mailbox_id, side))\n            db.commit()\n            raise CrowdedError(\"too many sides have opened this mailbox\")"),
-    "spec-S10-claim-flag-set-after-success": (S + "server_websocket.py",
-        "        self._did_claim = True\n        nameplate_id = msg[\"nameplate\"]\n        assert isinstance(nameplate_id, type(\"\")), type(nameplate_id)\n        self._nameplate_id = nameplate_id\n        try:\n            mailbox_id = self._app.claim_nameplate(nameplate_id, self._side,\n                                                   server_rx)\n        except CrowdedError:\n            raise Error(\"crowded\")\n        except ReclaimedError:\n            raise Error(\"reclaimed\")\n",
-        "        nameplate_id = msg[\"nameplate\"]\n        assert isinstance(nameplate_id, type(\"\")), type(nameplate_id)\n        try:\n            mailbox_id = self._app.claim_nameplate(nameplate_id, self._side,\n                                                   server_rx)\n        except CrowdedError:\n            raise Error(\"crowded\")\n        except ReclaimedError:\n            raise Error(\"reclaimed\")\n        self._did_claim = True\n        self._nameplate_id = nameplate_id\n"),
     "spec-S5-log-lines": (S + "server.py",
         '        log.msg("beginning app prune")', '        log.msg("beginning app prune (sweep)")'),
 }
